@@ -66,8 +66,25 @@
         Bind calls was refused is a violation.
         flag 5: a job that is refused on the session's books but would fit on
         the capacity the API server knows (the books plus what the dropped
-        operations hold, which no Bind was issued for). *)
-From KaiV Require Export Run.Cycle Model.Progress Model.Signatures Model.ProgressTree Model.ProgressFaults.
+        operations hold, which no Bind was issued for).
+    - [KRFault]: allocate, then reclaim, on interchangeable-class clusters with
+      at least two eligible reclaimers in different queues while the session's
+      cache refuses some Evict calls (none / the k-th call of the action /
+      every call for one preemptor).  Recorded: what KProg records (pending
+      jobs in the REAL pop order, read off CanReclaimResources), every Evict
+      call in order WITH ITS OUTCOME, the final status of every pod.
+        [model_agrees]: the faulty reclaim of Model/ReclaimFaults.v (a refused
+        Evict un-evicts that pod, Commit carries on, the loop goes on), run with
+        the failure oracle read off the recorded outcomes, issues the recorded
+        Evict calls with the recorded outcomes for the same preemptors in the
+        same order, the same nominations on the same nodes, and leaves every
+        pod with the recorded status.
+        [monitor_ok]: the clause of C05_reclaim_progress_under_evict_faults on
+        the real dumps: a pending job that is eligible by the numbers, none of
+        whose OWN evictions was refused, for which an eligible victim is still
+        available (on a node without refused evictions, not evicted for a job
+        popped before it), and that was not served is a violation. *)
+From KaiV Require Export Run.Cycle Model.Progress Model.Signatures Model.ProgressTree Model.ProgressFaults Model.ReclaimFaults.
 From KaiV Require Model.Capacity.
 From Coq Require Import QArith.
 Open Scope Z_scope.
@@ -605,6 +622,104 @@ Definition prog_agrees (k : pcase) : bool :=
                  | None => negb (served k p)
                  end) (p_pending k)).
 
+
+(** * KRFault: reclaim under Evict failures *)
+
+Record evobs := mkEO { eo_victim : positive; eo_preemptor : positive; eo_ok : bool }.
+Record rfcase := mkRFC {
+  rfc_p : pcase;                           (* [p_evictions]: the ACCEPTED Evict calls; [p_running]: jobs with an Evict call
+                                              (accepted or not) first, in call order; [p_pending]: the REAL pop order *)
+  rfc_evicts : list evobs;                 (* every Evict call of the action, in order, with outcome *)
+  rfc_status : list (positive * status);   (* final session status of the pod of every unit job *)
+}.
+
+(** the failure oracle as the run shows it: a call for this (victim, preemptor) was refused *)
+Definition rfc_oracle (k : rfcase) : eoracle :=
+  fun _ v p => existsb (fun e => Pos.eqb (eo_victim e) v && Pos.eqb (eo_preemptor e) p && negb (eo_ok e)) (rfc_evicts k).
+
+Definition rfault_run (k : rfcase) : rfstate :=
+  let c := rfc_p k in
+  reclaim_action_f (fun _ _ => true) m_true3 (m_valid c) m_ahead (p_sigs c) m_pending (m_can_reclaim c) true (rfc_oracle k)
+                   (mkVS (p_units c) (p_running c) []) (p_pending c).
+
+Definition ecall_evict (c : ecall) : list evobs :=
+  match c with
+  | EEvict v p => [mkEO v p true]
+  | EEvictRefused v p => [mkEO v p false]
+  | EPipe _ _ => []
+  end.
+Definition evobs_eqb (a b : evobs) : bool :=
+  Pos.eqb (eo_victim a) (eo_victim b) && Pos.eqb (eo_preemptor a) (eo_preemptor b) && Bool.eqb (eo_ok a) (eo_ok b).
+
+Definition rf_model_status (c : pcase) (fs : rfstate) (j : positive) : status :=
+  if existsb (fun p => Pos.eqb (pj_id p) j) (p_pending c) then
+    (if nominated (rf_calls fs) j then Pipelined else Pending)
+  else if existsb (fun x => match x with EEvict v _ => Pos.eqb v j | _ => false end) (rf_calls fs) then Releasing
+  else Running.
+
+(** the model's faulty reclaim vs the recorded calls: the same Evict calls with the same outcomes,
+    commit by commit in the same order of preemptors (inside one commit the order of the evictions
+    is that of the statement's operation list), the same nominations on the same nodes, the same
+    final status of every pod *)
+Definition rfault_agrees (k : rfcase) : bool :=
+  let c := rfc_p k in
+  negb (class_ok c)
+  || (let fs := rfault_run k in
+      let mev := flat_map ecall_evict (rf_calls fs) in
+      Nat.eqb (List.length mev) (List.length (rfc_evicts k))
+      && list_eqb2 Pos.eqb (map eo_preemptor mev) (map eo_preemptor (rfc_evicts k))
+      && forallb (fun e => existsb (evobs_eqb e) (rfc_evicts k)) mev
+      && forallb (fun e => existsb (evobs_eqb e) mev) (rfc_evicts k)
+      && forallb (fun p => match find (fun cm => Pos.eqb (cm_job cm) (pj_id p)) (vs_log (rf_st fs)) with
+                           | Some cm => existsb (fun e => Pos.eqb (fst e) (pj_id p) && Pos.eqb (snd e) (cm_node cm)) (p_pipes c)
+                           | None => negb (existsb (fun e => Pos.eqb (fst e) (pj_id p)) (p_pipes c))
+                           end) (p_pending c)
+      && forallb (fun js => status_eqb (rf_model_status c fs (fst js)) (snd js)) (rfc_status k)).
+
+(** monitor: the clause of C05_reclaim_progress_under_evict_faults on the real dumps *)
+Definition rf_refused_for (k : rfcase) (p : pjob) : bool :=
+  existsb (fun e => Pos.eqb (eo_preemptor e) (pj_id p) && negb (eo_ok e)) (rfc_evicts k).
+Definition rf_popped_before (k : rfcase) (i : nat) (j : positive) : bool :=
+  existsb (fun q => Pos.eqb (pj_id q) j) (firstn i (p_pending (rfc_p k))).
+(** evictions accepted for the jobs popped before position [i] *)
+Definition rf_taken_before (k : rfcase) (i : nat) : Z :=
+  zcount (fun e => eo_ok e && rf_popped_before k i (eo_preemptor e)) (rfc_evicts k).
+(** a node on which an eviction was refused: its releasing count went below what its nominations need *)
+Definition rf_dirty_node (k : rfcase) (n : positive) : bool :=
+  existsb (fun e => negb (eo_ok e) && match node_of_victim (rfc_p k) (eo_victim e) with
+                                      | Some m => Pos.eqb m n | None => false end) (rfc_evicts k).
+(** a victim that is still available when the job at position [i] is popped: eligible, on a node
+    without refused evictions, not evicted for a job popped earlier *)
+Definition rf_available (k : rfcase) (i : nat) (p : pjob) (v : rjob) : bool :=
+  negb (Pos.eqb (rj_queue v) (pj_queue p)) && rj_preempt v && negb (rf_dirty_node k (rj_node v))
+  && negb (existsb (fun e => eo_ok e && Pos.eqb (eo_victim e) (rj_id v) && rf_popped_before k i (eo_preemptor e)) (rfc_evicts k)).
+
+(** [reclaim_expected] where the victims taken before the job are those the run shows (a job whose
+    eviction was refused took none, a job that had to evict around a refused victim may have taken
+    two) and a victim must still be available *)
+Definition reclaim_expected_f (k : rfcase) (i : nat) (p : pjob) : bool :=
+  let c := rfc_p k in
+  let qs := p_queues c in
+  let taken := Z.max (Z.of_nat i) (rf_taken_before k i) in
+  saturated c
+  && leaf_quotas_fit c
+  && match chain_q qs (pj_queue p) with
+     | [] => false
+     | ch => chain_within ch (pj_preempt p) (shared_level c (pj_queue p))
+                          (fun a => before_under c (pq_id a) i false)
+                          (fun a => before_under c (pq_id a) i true)
+     end
+  && existsb (rf_available k i p) (p_running c)
+  && forallb (fun q => Pos.eqb (pq_id q) (pj_queue p)
+                       || (zcount (fun v => Pos.eqb (rj_queue v) (pq_id q)) (p_running c) =? 0)
+                       || victim_level_above qs (pj_queue p) (pq_id q) taken) qs.
+
+(** eligible, none of its own evictions refused, a victim still available, yet not served *)
+Definition rfault_progress_ok (k : rfcase) : bool :=
+  forallb (fun ip => negb (reclaim_expected_f k (fst ip) (snd ip))
+                     || rf_refused_for k (snd ip)
+                     || served (rfc_p k) (snd ip)) (indexed 0 (p_pending (rfc_p k))).
+
 (** * KSig *)
 
 Inductive sigop :=
@@ -627,7 +742,7 @@ Fixpoint sig_agrees (m : reps) (ops : list sigop) : bool :=
   end.
 
 (** * entry points *)
-Inductive c05case := KAlloc (a : acase) | KProg (p : pcase) | KSig (ops : list sigop) | KFault (f : fcase).
+Inductive c05case := KAlloc (a : acase) | KProg (p : pcase) | KSig (ops : list sigop) | KFault (f : fcase) | KRFault (r : rfcase).
 
 Definition model_agrees (c : c05case) : bool :=
   match c with
@@ -635,6 +750,7 @@ Definition model_agrees (c : c05case) : bool :=
   | KProg p => prog_agrees p
   | KSig ops => sig_agrees [] ops
   | KFault f => fault_agrees f
+  | KRFault r => rfault_agrees r
   end.
 Definition monitor_ok (c : c05case) : bool :=
   match c with
@@ -642,6 +758,7 @@ Definition monitor_ok (c : c05case) : bool :=
   | KProg p => progress_ok p
   | KSig _ => true
   | KFault f => fault_conservation_ok f
+  | KRFault r => rfault_progress_ok r
   end.
 Definition run_mismatches (cs : list (nat * c05case)) : list nat := failing (fun k => negb (model_agrees k)) cs.
 Definition run_monitor (cs : list (nat * c05case)) : list nat := failing (fun k => negb (monitor_ok k)) cs.
